@@ -19,6 +19,13 @@ while args:
     elif a == '--src': src = args.pop(0)
 src = src or f'/tmp/seed-{prop.lower()}-out'
 patch = f'{src}/{which}.patch'; demo = f'{src}/{which}_demo_test.go'
+if os.path.exists(f'{src}/patch.diff'):
+    # layout of /verif/seeded/<id>/: copy to a scratch dir under the original names
+    import tempfile
+    tmp = tempfile.mkdtemp(prefix='seedsrc-')
+    shutil.copy(f'{src}/patch.diff', f'{tmp}/{which}.patch'); shutil.copy(f'{src}/demo_test.go', f'{tmp}/{which}_demo_test.go')
+    if os.path.exists(f'{src}/AGENT_README.md'): shutil.copy(f'{src}/AGENT_README.md', f'{tmp}/README.md')
+    src = tmp; patch = f'{src}/{which}.patch'; demo = f'{src}/{which}_demo_test.go'
 GO = subprocess.run(['bash', '-c', '. /verif/env.sh; echo $GO'], capture_output=True, text=True).stdout.strip()
 env = dict(os.environ, GOFLAGS='-mod=mod', GOPROXY='off', GOTOOLCHAIN='local')
 wt = f'/tmp/seedeval-wt-{os.getpid()}'; out = f'/tmp/seedeval-out-{os.getpid()}'
